@@ -1,6 +1,7 @@
 package ech
 
 import (
+	"bytes"
 	"context"
 	"fmt"
 	"io"
@@ -103,7 +104,8 @@ type Conn struct {
 	outer *clientHello
 	inner *clientHello
 
-	hpkeCtx *hpke.Receipient
+	hpkeCtx    *hpke.Receipient
+	hpkeConfig []byte // the Config of the key that hpkeCtx was set up with
 
 	keys             []Key
 	debugf           func(string, ...any)
@@ -199,32 +201,42 @@ func (c *Conn) processEncryptedClientHello(h *clientHello, isRetry bool) (*clien
 		}) == -1 {
 			continue
 		}
-		if c.hpkeCtx == nil && len(h.echExt.Enc) > 0 {
+		var ctx *hpke.Receipient
+		if isRetry {
+			// Section 7.1.1: a retried hello is opened with the context,
+			// and therefore the key, that opened the first one.
+			if !bytes.Equal(key.Config, c.hpkeConfig) {
+				continue
+			}
+			ctx = c.hpkeCtx
+		} else if len(h.echExt.Enc) > 0 {
+			// Each candidate key is tried with a context of its own.
 			echPriv, err := hpke.ParseHPKEPrivateKey(cfg.KEM, key.PrivateKey)
 			if err != nil {
 				return nil, err
 			}
 			info := append([]byte("tls ech\x00"), key.Config...)
-			ctx, err := hpke.SetupReceipient(cfg.KEM, h.echExt.CipherSuite.KDF, h.echExt.CipherSuite.AEAD, echPriv, info, h.echExt.Enc)
-			if err != nil {
+			if ctx, err = hpke.SetupReceipient(cfg.KEM, h.echExt.CipherSuite.KDF, h.echExt.CipherSuite.AEAD, echPriv, info, h.echExt.Enc); err != nil {
 				continue
 			}
-			c.hpkeCtx = ctx
 		}
-		if c.hpkeCtx == nil {
+		if ctx == nil {
 			return nil, ErrIllegalParameter
 		}
 		aad, err := h.marshalAAD()
 		if err != nil {
 			return nil, err
 		}
-		innerBytes, err = c.hpkeCtx.Open(aad, h.echExt.Payload)
+		opened, err := ctx.Open(aad, h.echExt.Payload)
 		if err != nil {
 			continue
 		}
 		if string(cfg.PublicName) != h.ServerName {
 			return nil, ErrIllegalParameter
 		}
+		innerBytes = opened
+		c.hpkeCtx, c.hpkeConfig = ctx, key.Config
+		break
 	}
 	if innerBytes == nil {
 		// Section 7.1.1, regarding a retried ClientHello:
